@@ -152,8 +152,25 @@ def run_case(case, rng):
                            allow_dup_actions=False)
         G.restrict_to_closure(sp, rng)
         sp.init = [(s, p) for s, p in sp.init if p > 0]
-        mdp = Bd.build(sp, rng.choice(["subclass", "quicktabular"]))
+        rep = rng.choice(["subclass", "quicktabular", "from_matrices_own_order"])
+        if rep == "from_matrices_own_order":
+            # the MDP handed over as matrices with states and actions in the caller's own (unsorted) order: a positional
+            # policy prior refers to THAT action order
+            from msdm.core.mdp import TabularMarkovDecisionProcess
+            S0, A0 = list(sp.states), list(sp.action_universe())
+            rng.shuffle(S0)
+            rng.shuffle(A0)
+            a0 = Rf.Arr(sp, states=S0, actions=A0)
+            mdp = TabularMarkovDecisionProcess.from_matrices(
+                state_list=tuple(S0), action_list=tuple(A0), initial_state_vec=a0.init.copy(), transition_matrix=a0.T.copy(),
+                action_matrix=a0.avail.astype(float), reward_matrix=a0.R.copy(),
+                absorbing_state_vec=a0.flag.copy(), discount_rate=sp.gamma)
+        else:
+            mdp = Bd.build(sp, rep)
         S, A = list(mdp.state_list), list(mdp.action_list)
+        if rep == "from_matrices_own_order" and (S != S0 or A != A0):
+            case.fail("wrapper:from_matrices-lists-not-kept", f"state_list {S!r} vs {S0!r}; action_list {A!r} vs {A0!r}")
+            S, A = S0, A0
         if set(S) != set(sp.states):
             raise Inconclusive("state_list differs")
         arr = Rf.Arr(sp, states=S, actions=A)
@@ -170,7 +187,7 @@ def run_case(case, rng):
             wprior = np.array([_open_simplex(rng, len(A)) for _ in S])
             wprior_t = torch.tensor(wprior)
         case.family = "wrapper"
-        case.params = dict(n=len(S), actions=len(A), gamma=sp.gamma, weight=w, iters=iters, prior=pk)
+        case.params = dict(rep=rep, n=len(S), actions=len(A), gamma=sp.gamma, weight=w, iters=iters, prior=pk)
         kw_ = {} if iters is None else dict(iterations=iters)
         if wprior_t is not None:
             kw_["policy_prior"] = wprior_t
